@@ -1,16 +1,18 @@
-"""Two-frontend bundle (builder-mixed): several FrontendImpl<Options> instantiations with different queue types in one
-process — the queue type is a field of the thread context; C08's accounting for every mix of context kinds and every
-registration order (Backend/Mixed.lean, Props/C08Mixed.lean), tied by extractors/mixed.py (per-context dispatch of
-_check_failure_counter and of the clean-up) and by the h2_mixed harness stream (tools/mixed_stream.py)."""
+"""Proof bundle X: the unbounded queue inside the backend model (Backend/UQueue.lean, USched.lean, UOps.lean — the machine
+`driver backend trace` runs for the UnboundedBlocking / UnboundedDropping builds of H2). Theorems: Props/C03U.lean over the
+chain lemmas of Backend/UQueueProofs.lean and Backend/UThread.lean. The `_partial` ones are proved for every context state and
+every queue operation of the machine; the induction over `runOpsU` (walk of pollU / exitLoopU) is not done."""
+_T = ["Backend.C03U_conservation", "Backend.C03U_queue_coherent", "Backend.C03U_fresh_state", "Backend.US.runOpsU_closed", "Backend.US.UI.closed",
+      "Backend.C03U_enqueue_keeps", "Backend.C03U_shrink_keeps", "Backend.C03U_read_keeps",
+      "Backend.C03U_offer_means_pending", "Backend.C03U_commit_pop_keep", "Backend.tryEnqU_answer",
+      "Backend.UQ.uRead_spec", "Backend.UQ.uPrepareRead_spec", "Backend.UQ.TI.enq", "Backend.UQ.TI.prepareWrite"]
 THEOREMS = {
-    "C08": ["Backend.C08Mixed_accounting", "Backend.C08Mixed_bounded_dropped_equals_reported_plus_pending",
-            "Backend.C08Mixed_early_return_check_is_noop", "Backend.C08Mixed_check_visits_every_bounded_context",
-            "Backend.C08Mixed_demo_all_reported", "Backend.C08Mixed_early_return_never_reports",
-            "Backend.C08Mixed_early_return_invisible_bounded_first", "Backend.C08Mixed_early_return_late_after_unbounded_exit",
-            "Backend.PA.runOpsM_closed", "Backend.PA.InvD.closedM",
-            "Obligations.mixed_extraction_complete", "Obligations.mixed_check_is_per_context", "Obligations.mixed_no_early_return",
-            "Obligations.C08Mixed_extracted", "Obligations.C08Mixed_check_extracted"],
+    "C03": _T,
+    "C20": ["Backend.C20U_empty_test_sound_run", "Backend.C20U_empty_test_sound", "Backend.C03U_shrink_keeps", "Backend.UQ.TI.empty_sound"],
+    "C09": ["Backend.C09U_blocked_call_granted_after_drain", "Backend.C09U_drain_publishes", "Backend.qPrepareWrite_drained",
+            "Backend.C09U_parked_call_resumes_partial", "Backend.C09U_reads_committed", "Backend.C09U_parked_call_resumes_drained",
+            "Backend.C09U_fresh_state", "Backend.US.pi_closed", "Backend.US.uRead_complete", "Backend.uPrepareWrite_drained_grants"],
 }
-MODULES = {"C08": ["QuillModel.Props.C08Mixed", "QuillModel.Obligations.Mixed"]}
+MODULES = {"C03": ["QuillModel.Props.C03U"], "C20": ["QuillModel.Props.C03U"], "C09": ["QuillModel.Props.C03U", "QuillModel.Props.C09U", "QuillModel.Backend.UProg"]}
 OBLIG = []
-OBLIG_BY_PROP = {"C08": ["QuillModel.Obligations.Mixed"]}
+OBLIG_BY_PROP = {}
